@@ -130,6 +130,17 @@ pub fn run(ctx: &mut Ctx) {
             ctx.eval(&AgreeP { x: e.bytes, family: "valid-2^16-entries", what: String::new() });
         }
     }
+    // files with thousands of messages
+    for (i, n) in [4096usize, 4097, 9000].iter().enumerate() {
+        if ctx.mine(i as u64 + 12) {
+            use crate::refm::sml::{ABody, AClose, AFile, AMsg};
+            let msgs = (0..*n)
+                .map(|j| AMsg { transaction_id: vec![(j % 251) as u8], group_no: (j % 256) as u8, abort_on_error: 0, body: ABody::Close(AClose { global_signature: None }) })
+                .collect();
+            let e = crate::refm::sml::encode_canonical(&AFile { messages: msgs });
+            ctx.eval(&AgreeP { x: e.bytes, family: "valid-thousands-of-messages", what: String::new() });
+        }
+    }
     // valid files incl. long lists
     let n = ctx.count(20_000, 1_000_000);
     for i in 0..n {
